@@ -232,9 +232,17 @@ class BinPackH(Harness):
         if self.sparse():
             return [("sparse: reward == [LAST] * placed volume(S') / container volume",
                      r == where(last, self._vol_placed(ns).astype(F32) / self._cvol(), F32(0.0), F32))]
+        # documented metrics in timestep.extras (reset/step docstrings), recomputed from the raw arrays of S'
+        pl1, im1, em1 = vs(ns.items_placed), vs(ns.items_mask), vs(ns.ems_mask)
+        npl = count(list(pl1))
+        ex = ts.extras
+        metrics = [("extras.volume_utilization == placed volume(S') / container volume", vs(ex["volume_utilization"]) == self._vol_placed(ns).astype(F32) / self._cvol()),
+                   ("extras.packed_items == number of placed items", vs(ex["packed_items"]) == npl),
+                   ("extras.ratio_packed_items == placed items / real items", vs(ex["ratio_packed_items"]) == npl.astype(F32) / count(list(im1)).astype(F32)),
+                   ("extras.active_ems == number of active EMSs", vs(ex["active_ems"]) == count(list(em1)))]
         return [("dense: reward == (placed volume(S') - placed volume(S)) / container volume  (= Phi(S') - Phi(S))", r == dv / self._cvol()),
                 ("dense, legal: the increase is the chosen item's volume", legal.implies(r == item_vol.astype(F32) / self._cvol())),
-                ("dense, illegal: reward == 0", (~legal).implies(r == F32(0.0)))]
+                ("dense, illegal: reward == 0", (~legal).implies(r == F32(0.0)))] + metrics
 
     # ------------------------------------------------------------------ C09 (partial reference: everything but the EMS buffer)
     def ref_step(self, st, act):
